@@ -8,18 +8,19 @@ struct Ghost {
     step: u64,
     reads: u32,
     stalls: u32,
+    max_stalls: u32,
 }
-static mut G: Ghost = Ghost { magic: 0xD1FA_57A7_1C00_1102, clock: 0, step: 1, reads: 0, stalls: 0 };
+static mut G: Ghost = Ghost { magic: 0xD1FA_57A7_1C00_1102, clock: 0, step: 1, reads: 0, stalls: 0, max_stalls: 0 };
 
-/// A clock that advances in uniform steps of `step` ticks, read faster than it ticks at most twice at the
-/// very beginning (two consecutive readings may then be equal): the arbitrary part of "the clock advances in
-/// uniform steps".
+/// A clock that advances in uniform steps of `step` ticks per reading; optionally the second reading may be
+/// equal to the first (a clock coarser than the cost of reading it: the first sample is then zero-length).
 fn tick() -> u64 {
     unsafe {
         G.reads += 1;
         assert!(G.reads <= 420, "measure_precision did not settle on a uniformly stepping clock");
-        let stall: bool = kani::any();
-        if stall && G.stalls < 2 && G.reads <= 6 {
+        // only the second reading may stall (= the very first sample may be zero-length)
+        let stall: bool = G.reads == 2 && G.stalls < G.max_stalls && kani::any();
+        if stall {
             G.stalls += 1;
         } else {
             G.clock += G.step;
@@ -38,9 +39,26 @@ fn dur_stub(this: TscTimestamp, earlier: TscTimestamp, _f: NonZeroU64) -> FineDu
 }
 fn nop() {}
 
-// @cell props=C11 tier=quick kind=attempt timeout=2400 mem=24 cls=K
-// @desc Timer::measure_precision on a clock advancing in uniform steps of a symbolic size (1..=2^20 ticks at
-// @desc 10^12 Hz, i.e. ps), with up to two stalled (equal) readings at the start: the reported precision equals the step
+fn precision(max_stalls: u32) {
+    let step: u32 = kani::any();
+    kani::assume(step >= 1 && step <= (1 << 20));
+    unsafe {
+        G.step = step as u64;
+        G.max_stalls = max_stalls;
+    }
+    let timer = Timer::Tsc { frequency: NonZeroU64::new(1_000_000_000_000).unwrap() };
+    let p = timer.measure_precision();
+    assert_eq!(p.picos, step as u128);
+    unsafe {
+        assert_eq!(G.magic, 0xD1FA_57A7_1C00_1102);
+        kani::cover!(G.stalls == max_stalls);
+        kani::cover!(G.stalls == 0);
+    }
+}
+
+// @cell props=C11 tier=thorough kind=attempt timeout=3000 mem=24 cls=K
+// @desc Timer::measure_precision on a clock advancing by a symbolic uniform step (1..=2^20 ticks at 10^12 Hz, i.e.
+// @desc ps) per reading: the reported precision equals the step
 #[kani::proof]
 #[kani::unwind(103)]
 #[kani::stub(crate::time::timestamp::tsc::TscTimestamp::start, ts_start)]
@@ -49,15 +67,19 @@ fn nop() {}
 #[kani::stub(crate::time::fence::full_fence, nop)]
 #[kani::stub(crate::time::fence::compiler_fence, nop)]
 fn c11_precision_uniform_step() {
-    let step: u32 = kani::any();
-    kani::assume(step >= 1 && step <= (1 << 20));
-    unsafe { G.step = step as u64; }
-    let timer = Timer::Tsc { frequency: NonZeroU64::new(1_000_000_000_000).unwrap() };
-    let p = timer.measure_precision();
-    assert_eq!(p.picos, step as u128);
-    unsafe {
-        assert_eq!(G.magic, 0xD1FA_57A7_1C00_1102);
-        kani::cover!(G.stalls == 2);
-        kani::cover!(G.stalls == 0);
-    }
+    precision(0)
+}
+
+// @cell props=C11 tier=thorough kind=attempt timeout=3000 mem=24 cls=K
+// @desc the same with a possibly zero-length first sample (second reading equal to the first): zero samples are
+// @desc discarded, the precision is still the step
+#[kani::proof]
+#[kani::unwind(103)]
+#[kani::stub(crate::time::timestamp::tsc::TscTimestamp::start, ts_start)]
+#[kani::stub(crate::time::timestamp::tsc::TscTimestamp::end, ts_end)]
+#[kani::stub(crate::time::timestamp::tsc::TscTimestamp::duration_since, dur_stub)]
+#[kani::stub(crate::time::fence::full_fence, nop)]
+#[kani::stub(crate::time::fence::compiler_fence, nop)]
+fn c11_precision_uniform_step_first_zero() {
+    precision(1)
 }
